@@ -93,11 +93,12 @@ PROPS = {
     "C12": {
         "runs": [
             {"harness": "H_C12_immutable", "quick": {"calls": 2}, "thorough": {"calls": 3}},
+            {"harness": "H_C12_concurrent", "stress": 2000, "quick": {"preempt": 1}, "thorough": {"preempt": 2}},
         ],
-        "bounds": {"quick": "every subset of {Filename, Ext, Update, JSON} options; sequences of 1..2 of the five entry points through one shared Config",
+        "bounds": {"quick": "every subset of {Filename, Ext, Update, JSON} options; sequences of 1..2 of the five entry points through one shared Config; two goroutines issuing any pair of entry points through one shared Config, all schedules with <= 1 preemption",
                    "thorough": "sequences of 1..3 entry points"},
         "assumptions": COMMON_ASSUME,
-        "outside": ["concurrent use of one Config (schedules)"],
+        "outside": ["interleavings between plain memory accesses (the scheduler interleaves at file-system and lock operations; writes to the Config are caught by the write monitor in any schedule)"],
     },
     "C17": {
         "runs": [
